@@ -167,7 +167,7 @@ func TestC01(t *testing.T) {
 	vcore.Run(t, "C01", rapid.Custom(func(t *rapid.T) Case { return GenHistory(t, c01Params) }), checkC01)
 }
 
-var c04Params = &HistoryParams{MinOps: 15, MaxOps: 50, Episodes: true, Cloud: 1, Lag: true, Reloads: true, FaultPct: 25,
+var c04Params = &HistoryParams{MinOps: 15, MaxOps: 50, Episodes: true, Cloud: 1, Lag: true, Reloads: true, FaultPct: 25, Ranges: true,
 	Weights: map[string]int{"create": 18, "delete": 14, "phase": 10, "drop": 0, "restart": 1, "apirelease": 5, "resync": 6,
 		"reserve": 0, "unreserve": 0, "fipevent": 0, "poolapi": 1},
 	Kinds: []string{"sts", "sts", "dp", "cr", "bare", "dppool"}}
@@ -193,7 +193,7 @@ func TestC04(t *testing.T) {
 	vcore.Run(t, "C04", rapid.Custom(func(t *rapid.T) Case { return GenHistory(t, c04Params) }), checkC04)
 }
 
-var c02Params = &HistoryParams{MinOps: 15, MaxOps: 50, Cloud: 0, Lag: true,
+var c02Params = &HistoryParams{MinOps: 15, MaxOps: 50, Cloud: 0, Lag: true, Ranges: true,
 	Weights: map[string]int{"create": 18, "delete": 14, "sched": 20, "phase": 5, "deliver": 14, "unbind": 14, "drop": 0, "reserve": 0,
 		"unreserve": 0, "fipevent": 0, "apirelease": 1, "restart": 6, "resync": 8, "poolapi": 1, "scale": 3},
 	Kinds: []string{"sts", "dp", "dp", "cr", "nscr", "bare", "dppool"}, Policies: []string{"immutable", "never", "never", ""}}
@@ -215,7 +215,7 @@ func TestC02(t *testing.T) {
 	vcore.Run(t, "C02", rapid.Custom(func(t *rapid.T) Case { return GenHistory(t, c02Params) }), checkC02)
 }
 
-var c03Params = &HistoryParams{MinOps: 15, MaxOps: 50, Cloud: 0, Lag: true, EndQuiesce: true,
+var c03Params = &HistoryParams{MinOps: 15, MaxOps: 50, Cloud: 0, Lag: true, EndQuiesce: true, Ranges: true,
 	Weights: map[string]int{"create": 16, "delete": 14, "sched": 18, "phase": 8, "deliver": 10, "unbind": 10, "drop": 3, "reserve": 0,
 		"unreserve": 0, "fipevent": 0, "apirelease": 0, "restart": 4, "poolapi": 0, "poolobj": 0, "scale": 6, "delwl": 3, "mkwl": 2,
 		"quiesce": 4, "resync": 6}}
